@@ -75,7 +75,10 @@ func (d *ReadBuf) ExtractResourceBank() *ResourceBank {
 // if you hold onto the data you risk holding onto a lot of data. If l exceeds
 // the remaining space Next returns io.EOF
 func (d *ReadBuf) Next(l int) ([]byte, error) {
-	if l+d.i > len(d.buf) {
+	if l < 0 {
+		return nil, errNegativeLength
+	}
+	if l > len(d.buf)-d.i {
 		return nil, io.EOF
 	}
 	d.i += l
@@ -86,7 +89,10 @@ func (d *ReadBuf) Next(l int) ([]byte, error) {
 // data is held in a StringBank and will be valid only until someone calls Close
 // on that bank. If l exceeds the remaining space NextAsString returns io.EOF
 func (d *ReadBuf) NextAsString(l int) (string, error) {
-	if l+d.i > len(d.buf) {
+	if l < 0 {
+		return "", errNegativeLength
+	}
+	if l > len(d.buf)-d.i {
 		return "", io.EOF
 	}
 	d.i += l
@@ -120,6 +126,8 @@ func (d *ReadBuf) Varint() (int64, error) {
 }
 
 var errOverflow = errors.New("varint overflows a 64-bit integer")
+
+var errNegativeLength = errors.New("negative length")
 
 func (d *ReadBuf) uvarint() (uint64, error) {
 	var x uint64
